@@ -97,8 +97,17 @@ func ruleEmittedSymbols(c *core.Ctx) {
 				// `yardl::binary::%s<T>` with functionPointerName: the Reader<T>/Writer<T> function pointer aliases
 				out = append(out, "Reader@"+pos, "Writer@"+pos)
 			case kind == "cpp_binary" && strings.HasPrefix(name, "%s"):
+				// the first hole is the direction; further holes are computed parts (a routine family, a kind
+				// held in a local) that literals alone do not enumerate: emitted as a pattern
 				for _, v := range []string{"Write", "Read"} {
-					out = append(out, v+strings.TrimPrefix(name, "%s")+"@"+pos)
+					rest := strings.ReplaceAll(strings.TrimPrefix(name, "%s"), "%s", "*")
+					if rest == "*" {
+						for _, cls := range []string{"Integer", "FloatingPoint", "String", "Date", "Time", "DateTime"} {
+							out = append(out, v+cls+"@"+pos)
+						}
+						continue
+					}
+					out = append(out, v+rest+"@"+pos)
 				}
 			case kind == "cpp_binary" && (name == "Write%s" || name == "Read%s"):
 				for _, cls := range []string{"Integer", "FloatingPoint", "String", "Date", "Time", "DateTime"} {
